@@ -773,6 +773,34 @@ func (b *backend) pathRevokeIssuer(ctx context.Context, req *logical.Request, da
 				return nil, fmt.Errorf("error saving revoked issuer to new location: %w", err)
 			}
 		}
+	} else if err == nil && certEntry == nil && len(issuer.KeyID) == 0 {
+		// An issuer imported without its key is not part of the issuer maps the
+		// CRL builder adds revoked issuers from, so its own revocation reaches
+		// its parent's CRL (and the certificate status API) only through a
+		// revocation entry. When the certificate was signed outside of this
+		// mount there is no stored copy to take it from: record the revocation
+		// the way the revocation of a presented, non-stored certificate does,
+		// unless an entry for this serial number exists already.
+		existing, err := fetchCertBySerial(sc, revokedPath, issuer.SerialNumber)
+		if err == nil && existing == nil {
+			issuerCert, err := issuer.GetCertificate()
+			if err != nil {
+				return nil, fmt.Errorf("error parsing issuer certificate value: %w", err)
+			}
+
+			revEntry, err := logical.StorageEntryJSON(revokedPath+normalizeSerial(issuer.SerialNumber), revocationInfo{
+				CertificateBytes:  issuerCert.Raw,
+				RevocationTime:    issuer.RevocationTime,
+				RevocationTimeUTC: issuer.RevocationTimeUTC,
+			})
+			if err != nil {
+				return nil, fmt.Errorf("error creating revocation entry for issuer: %w", err)
+			}
+
+			if err := req.Storage.Put(ctx, revEntry); err != nil {
+				return nil, fmt.Errorf("error saving revoked issuer to new location: %w", err)
+			}
+		}
 	}
 
 	// Rebuild the CRL to include the newly revoked issuer.
